@@ -53,9 +53,13 @@ SPECS = {
     'calc_base_height': dict(file='utils/utils.py', params={'vals': 'List Rat', 'lookback_perc': 'Rat', 'height_perc': 'Rat'},
                              ret='Rat', raises=True, elementwise=False,
                              externals={'np.percentile': ('pctl', 'List Rat → Rat → Rat', ('List Rat', 'Rat'), 'Rat')}),
+    # a method: `self.prms['KEY']` becomes the parameter KEY (the chunk's own parameter snapshot)
+    '_get_min_sep_for_height': dict(file='data.py', cls='CeiloChunk', params={'height': 'Rat'},
+                                    prms={'MIN_SEP_LIMS': 'List Rat', 'MIN_SEP_VALS': 'List Rat'},
+                                    ret='Rat', raises=True, elementwise=False, lean_name='get_min_sep_for_height'),
 }
 
-LEAN_NAME = {k: k for k in SPECS}
+LEAN_NAME = {k: v.get('lean_name', k) for k, v in SPECS.items()}
 
 
 def rat_lit(fr: Fraction) -> str:
@@ -154,6 +158,17 @@ class Tr:
             return '[' + ', '.join(c for c, _ in cs) + ']', f'List {ts.pop()}'
         if isinstance(n, ast.Call):
             return self.call(n, env, binds)
+        if isinstance(n, ast.Subscript) and dotted(n.value) == 'self.prms' and isinstance(n.slice, ast.Constant) \
+                and n.slice.value in self.spec.get('prms', {}):
+            return n.slice.value, self.spec['prms'][n.slice.value]
+        if isinstance(n, ast.Subscript) and not isinstance(n.slice, ast.Slice) and not self.elementwise:
+            c, t = self.expr(n.value, env, binds)
+            ic, it = self.expr(n.slice, env, binds)
+            if not t.startswith('List ') or t == 'List ?' or it != 'Int':
+                raise Unsupported(n, f'indexing {t} with {it}')
+            v = self.tmp()
+            binds.append((v, f'getIdx {c} {ic}'))
+            return v, t[len('List '):]
         if isinstance(n, ast.Subscript) and isinstance(n.slice, ast.Slice) and not self.elementwise:
             sl = n.slice
             if sl.upper is not None or sl.step is not None or sl.lower is None:
@@ -249,6 +264,12 @@ class Tr:
                 c, t = self.expr(a_, env, binds)
                 cs.append(self.coerce(c, t, want, n))
             return f'({ext[0]} ' + ' '.join(cs) + ')', ext[3]
+        if name == 'np.searchsorted' and len(args) == 2 and not n.keywords:
+            c, t = self.expr(args[0], env, binds)
+            x, xt = self.expr(args[1], env, binds)
+            if t != 'List Rat' or xt not in ('Rat', 'Int'):
+                raise Unsupported(n, f'searchsorted({t}, {xt})')
+            return f'(searchsortedLeft {c} {self.coerce(x, xt, "Rat", n)})', 'Int'
         if name in ('np.isnan', 'numpy.isnan', 'math.isnan') and len(args) == 1:
             c, t = self.expr(args[0], env, binds)
             return f'(F.isnan {self.coerce(c, t, "PyFloat", n)})', 'Bool'
@@ -580,8 +601,11 @@ def ann_type(a):
 # ------------------------------------------------------------------------------------------------
 # driver
 # ------------------------------------------------------------------------------------------------
-def find_function(tree, name):
-    for n in tree.body:
+def find_function(tree, name, cls=None):
+    body = tree.body
+    if cls is not None:
+        body = next((n.body for n in tree.body if isinstance(n, ast.ClassDef) and n.name == cls), [])
+    for n in body:
         if isinstance(n, ast.FunctionDef) and n.name == name:
             return n
     return None
@@ -595,11 +619,13 @@ def translate_function(src_root: Path, name: str):
         tree = ast.parse(path.read_text())
     except (OSError, SyntaxError) as e:
         return None, f'cannot parse {path}: {e}'
-    fn = find_function(tree, name)
+    fn = find_function(tree, name, spec.get('cls'))
     if fn is None:
-        return None, f'no top-level function {name} in {spec["file"]}'
+        return None, f'no function {name} in {spec["file"]}'
     a = fn.args
     names = [x.arg for x in a.posonlyargs + a.args]
+    if spec.get('cls') and names[:1] == ['self']:
+        names = names[1:]
     if a.vararg or a.kwarg or a.kwonlyargs:
         return None, 'signature with * / ** / keyword-only arguments'
     # extra parameters are accepted only with a literal default, which is then bound as a local
@@ -624,6 +650,7 @@ def translate_function(src_root: Path, name: str):
     except Unsupported as e:
         return None, f'{spec["file"]}:{name}: {e}'
     params = ' '.join([f'({e[0]} : {e[1]})' for e in spec.get('externals', {}).values()] +
+                      [f'({p} : {t})' for p, t in spec.get('prms', {}).items()] +
                       [f'({p} : {t})' for p, t in spec['params'].items()])
     ret = f'Except AmpyErr ({spec["ret"]})' if spec['raises'] else spec['ret']
     text = f'def {LEAN_NAME[name]} {params} : {ret} :=\n  {"".join(pre)}{body}\n'
@@ -644,7 +671,7 @@ open Ampy Ampy.Py
 
 
 def module_name(name):
-    return 'Src' + ''.join(w.capitalize() for w in name.split('_'))
+    return 'Src' + ''.join(w.capitalize() for w in LEAN_NAME.get(name, name).split('_'))
 
 
 def generate(src_root: Path, out_dir: Path):
